@@ -951,4 +951,7 @@ func (sm *Subscriptions) dispose() {
 	for _, bind := range sm.whenQueue {
 		closeSafe(bind.ch)
 	}
+	for _, bind := range sm.whenQuery {
+		closeSafe(bind.ch)
+	}
 }
